@@ -212,6 +212,10 @@ class Eval:
         if all(v.t == BOOL for v in vals):
             zs = [v.z for v in vals]
             return V(BOOL, z3.And(*zs) if isinstance(n.op, ast.And) else z3.Or(*zs))
+        if len({v.t.name for v in vals}) > 1 and not all(v.t in (INT, REAL, BOOL) for v in vals):
+            # operands of different kinds (`while heap and n < limit`): only the truth value is meaningful
+            zs = [self.truth(v) for v in vals]
+            return V(BOOL, z3.And(*zs) if isinstance(n.op, ast.And) else z3.Or(*zs))
         # value-returning and/or (x or default)
         res = vals[-1]
         for v in reversed(vals[:-1]):
@@ -445,6 +449,26 @@ class Eval:
 
     def e_ListComp(self, n):
         return self.ex.listcomp(self, n)
+
+    def e_Dict(self, n):
+        if not n.keys or any(k is None for k in n.keys):
+            raise Unsupported("empty dict literal without a declared type / dict unpacking")
+        ks = [self.expr(k) for k in n.keys]
+        vs = [self.expr(v) for v in n.values]
+        kt, vt = ks[0].t, vs[0].t
+        if any(v.t != vt for v in vs):
+            vs = [coerce_to(v, REAL) for v in vs]
+            vt = REAL
+        t = TDict(kt, vt)
+        dom = z3.K(sort_of(kt), z3.BoolVal(False))
+        val = fresh(TMap(kt, vt), "dlit").z
+        card = z3.IntVal(0)
+        for k, v in zip(ks, vs):
+            card = z3.If(z3.Select(dom, k.z), card, card + 1)
+            dom = z3.Store(dom, k.z, z3.BoolVal(True))
+            val = z3.Store(val, k.z, v.z)
+        from .types import mk_dict
+        return mk_dict(t, dom, val, card)
 
     def e_DictComp(self, n):
         from .builtins import do_dictcomp
